@@ -111,6 +111,7 @@ def probe_tail(events, svcs):
     tail = []
     for i, ser in last.items():
         tag = "%x_%x" % (i, ser)
+        tail.append({"e": "P", "id": i, "shape": "ok", "modes": ["+", "x"], "cred": ["pt", 9], "raw": ["P+xpt", 0]})
         tail.append({"e": "H", "id": i})
         for s in svcs:
             tail.append({"e": "X", "svc": s["name"], "tag": tag, "kind": "OKA", "acct": ["ac1", 8], "text": ["t1", 9],
